@@ -47,8 +47,8 @@ int KillMemoryGrowth<Base>::init(
         return v;
       });
 
-  this->argParser_.addArgumentCustom(
-      "min_growth_ratio", min_growth_ratio_, PluginArgParser::parseUnsignedInt);
+  // a ratio such as the documented default 1.25 is not an integer
+  this->argParser_.addArgument("min_growth_ratio", min_growth_ratio_);
 
   return Base::init(args, context);
 }
